@@ -81,6 +81,11 @@ class Check:
         self.assumptions = []
         self.extra_cov = {}
         self.jobs = int(os.environ.get('PYVC_JOBS', '0') or 0) or min(16, os.cpu_count() or 4)
+        d = os.path.join(ROOT, 'replay', self.prop)
+        if os.path.isdir(d):
+            for f in os.listdir(d):
+                if f.endswith('.json'):
+                    os.unlink(os.path.join(d, f))
 
     # ----------------------------------------------------------------------------------------------------
     def run_tasks(self, tasks):
